@@ -12,7 +12,7 @@ EXTRA = {  # checks known (from probes) to be the natural catchers besides the s
 
 def seeds():
     out = []
-    for inc, tag in (("_incoming", "mut"), ("_incoming2", "r2")):
+    for inc, tag in (("_incoming", "mut"), ("_incoming2", "r2"), ("_incoming3", "r3")):
         for d in sorted(glob.glob("%s/seeded/%s/C??.mut?.diff" % (V, inc))):
             base = os.path.basename(d)
             prop, m = base[:3], base[7]
@@ -51,6 +51,6 @@ def run(job):
 if __name__ == "__main__":
     workers = int(sys.argv[1]) if len(sys.argv) > 1 else 2
     only = sys.argv[2:]
-    jobs = [j for j in seeds() if not only or any(j[0].startswith(o) for o in only)]
+    jobs = [j for j in seeds() if not only or any(o in j[0] for o in only)]
     with cf.ThreadPoolExecutor(workers) as ex:
         list(ex.map(run, jobs))
